@@ -402,6 +402,15 @@ fn to_git_ref_name(kind: GitRefKind, symbol: RemoteRefSymbol<'_>) -> Option<GitR
     }
 }
 
+/// Exposes the private symbol-to-ref mapping to verification harnesses.
+#[cfg(feature = "verif-hooks")]
+pub fn verif_to_git_ref_name(
+    kind: GitRefKind,
+    symbol: RemoteRefSymbol<'_>,
+) -> Option<GitRefNameBuf> {
+    to_git_ref_name(kind, symbol)
+}
+
 fn to_git_or_remote_tag_ref_name(symbol: RemoteRefSymbol<'_>) -> GitRefNameBuf {
     let RemoteRefSymbol { name, remote } = symbol;
     let name = name.as_str();
